@@ -270,7 +270,11 @@ def c19_stem(word):
 def build(ctx, docs, nseg, storage="ram", fieldkind="keyword"):
     nseg = max(1, min(nseg, len(docs)))
     b = Built(docs, nseg, storage, fieldkind)
-    b.open()
+    try:
+        b.open()
+    except BaseException:
+        b.close()
+        raise
     got = len(b.searcher.reader().leaf_readers())
     if got != nseg:
         raise AssertionError("harness: wanted %d segments, got %d" % (nseg, got))
